@@ -295,7 +295,16 @@ func (vc *VC) oblige(name, kind, detail, goal string, clause *Clause) {
 
 // safety obligation followed by assumption of the checked fact
 func (vc *VC) safety(what, goal string) {
-	if vc.safetyOn {
+	on := vc.safetyOn
+	if c := vc.r().contract; on && c != nil && len(c.SafetyKinds) > 0 {
+		on = false
+		for _, k := range c.SafetyKinds {
+			if strings.Contains(what, k) {
+				on = true
+			}
+		}
+	}
+	if on {
 		vc.oblige("safety", "safety", what, goal, nil)
 	}
 	vc.assume(goal)
